@@ -379,7 +379,7 @@ class RefPeer(asyncio.Protocol):
 
     # -- send path -------------------------------------------------------------------------
 
-    def send(self, payload, *, raw_after=b'', pad_blocks=0):
+    def send(self, payload, *, raw_after=b'', pad_blocks=0, injected=False):
         if self.transport is None or self.transport.is_closing():
             return
 
@@ -399,7 +399,7 @@ class RefPeer(asyncio.Protocol):
         self.send_seq = (self.send_seq + 1) & 0xffffffff
         self.transport.write(pkt + raw_after)
 
-        if payload and payload[0] == 21:
+        if payload and payload[0] == 21 and not injected:
             self._switch_send()
 
     def send_raw(self, data):
